@@ -74,6 +74,9 @@ func BaseParams(r *rand.Rand) Params {
 		p.LogCache = pick(r, 1, 4, 64, 512)
 	}
 	p.FSMKind = r.Intn(4)
+	if r.Intn(8) == 0 {
+		p.Protocol = 2
+	}
 	p.Pipeline = r.Intn(2) == 0
 	p.FastPath = r.Intn(2) == 0
 	p.NotifyBuf = pick(r, 0, 0, 1)
@@ -261,6 +264,20 @@ func Generate(family string, seed int64, idx int) Scenario {
 		p.MaxAppend = pick(r, 1, 4, 64)
 		sc.Clients = 0
 		sc.Script = "snapterm"
+	case "promote":
+		// C17/C09: membership history under one continuous leadership (join as non-voter, promote,
+		// demote, remove, re-add) with VerifyLeader / Barrier / writes after every step
+		p := &sc.P
+		p.Voters, p.NonVoters, p.Spares = pick(r, 1, 1, 3, 2), pick(r, 0, 0, 1), pick(r, 2, 2, 3)
+		p.PreVoteOff = make([]bool, p.N())
+		p.ShutdownOnRemove = false
+		p.RestoreCommitted = false
+		p.Protocol = 0
+		p.SnapThreshold = pick[uint64](r, 32, 8192)
+		p.ApplyDelayMs, p.PersistDelayMs, p.RestoreDelayMs = 0, 0, 0
+		sc.Clients = pick(r, 0, 1)
+		sc.WVerify = 20
+		sc.Script = "promote"
 	case "staletn":
 		// C18/C01: a TimeoutNow delivered a second time, late (see scriptStaleTN)
 		p := &sc.P
@@ -307,8 +324,15 @@ func Generate(family string, seed int64, idx int) Scenario {
 		p.SnapThreshold, p.SnapIntervalS = 8192, 100000
 		p.Trailing = pick[uint64](r, 0, 2, 10240)
 		p.ShutdownOnRemove = false
-		p.RestoreCommitted = false
+		p.RestoreCommitted = r.Intn(2) == 0
 		sc.Clients = pick(r, 0, 1)
+		if p.RestoreCommitted {
+			// see scriptSnapCfgRC
+			p.LogCache = 0
+			p.Trailing = pick[uint64](r, 0, 2)
+			p.ApplyDelayMs = 0
+			sc.Clients = 0
+		}
 		sc.Script = "snapcfg"
 	case "cfgtrunc":
 		p := &sc.P
@@ -352,6 +376,10 @@ func Generate(family string, seed int64, idx int) Scenario {
 			sc.P.PreVoteOff = append(sc.P.PreVoteOff, false)
 		}
 		sc.Steps, sc.EndMs = randomSteps(r, sc.P, 10+r.Intn(25), true)
+	}
+	if sc.P.Protocol == 2 && sc.P.NonVoters > 0 {
+		// protocol version 2 knows voters only (its bootstrap entry is a plain peer list)
+		sc.P.Protocol = 0
 	}
 	return sc
 }
@@ -756,6 +784,13 @@ func genClients(r *rand.Rand, sc *Scenario) {
 	p.Voters = pick(r, 3, 3, 5, 1)
 	p.Spares = 0
 	p.ShutdownOnRemove = false
+	if r.Intn(4) == 0 {
+		p.Protocol = 2
+	}
+	if r.Intn(2) == 0 {
+		// an FSM that lags behind the commit index: what Barrier is for
+		p.ApplyDelayMs, p.DelayEvery = pick(r, 2, 10, 40), pick[uint64](r, 1, 2, 5)
+	}
 	sc.Clients = pick(r, 2, 4, 6)
 	sc.Keys = pick(r, 1, 2)
 	sc.ThinkMs = pick(r, 5, 20, 60)
